@@ -11,6 +11,7 @@ use std::{
     hash::{DefaultHasher, Hasher},
 };
 
+use super::serialization::checked_len;
 use byteorder::{LittleEndian, ReadBytesExt, WriteBytesExt};
 use rand::Rng;
 
@@ -294,14 +295,16 @@ impl<D: DataMut> ReaderFrom for MatZnx<D> {
         let new_cols_out: usize = reader.read_u64::<LittleEndian>()? as usize;
         let len: usize = reader.read_u64::<LittleEndian>()? as usize;
 
-        let expected_len: usize = new_rows * new_cols_in * new_n * new_cols_out * new_size * size_of::<i64>();
-        if expected_len != len {
-            return Err(std::io::Error::new(
-                std::io::ErrorKind::InvalidData,
-                format!(
-                    "MatZnx metadata inconsistent: rows={new_rows} * cols_in={new_cols_in} * n={new_n} * cols_out={new_cols_out} * size={new_size} * 8 = {expected_len} != data len={len}"
-                ),
-            ));
+        match checked_len(&[new_rows, new_cols_in, new_n, new_cols_out, new_size, size_of::<i64>()]) {
+            Some(expected_len) if expected_len == len => {}
+            expected_len => {
+                return Err(std::io::Error::new(
+                    std::io::ErrorKind::InvalidData,
+                    format!(
+                        "MatZnx metadata inconsistent: rows={new_rows} * cols_in={new_cols_in} * n={new_n} * cols_out={new_cols_out} * size={new_size} * 8 = {expected_len:?} != data len={len}"
+                    ),
+                ));
+            }
         }
 
         let buf: &mut [u8] = self.data.as_mut();
